@@ -1,6 +1,7 @@
 import StamModel.Driver.Rel
 import StamModel.Driver.Off
 import StamModel.Driver.U8
+import StamModel.Driver.Find
 /-
   Line-protocol driver: one request per line on stdin, one answer per line on stdout.
   Built as the `stamdriver` executable (core Lean only).
@@ -12,6 +13,7 @@ def step (line : String) : String :=
   | "rel" :: args => rel args
   | "off" :: args => off args
   | "u8" :: args => u8 args
+  | "find" :: args => findCmd args
   | ["reset"] => "ok"
   | _ => "bad-op"
 
